@@ -9,6 +9,7 @@ import (
 	"os/exec"
 	"path/filepath"
 	"sort"
+	"strconv"
 	"strings"
 	"time"
 )
@@ -232,6 +233,17 @@ func runView(v View, seed uint64, n int, driver, corpusDir string) *Report {
 	root := NewRng(seed ^ 0x5eed0000)
 	for i := 0; i < n; i++ {
 		lines = append(lines, v.Gen(root.Fork(), i))
+	}
+	// VERIF_REPEAT=k (soak runs only): every line is executed k times - Go's map iteration order and scheduling
+	// differ between executions, so a choice the harness reconstructs wrongly shows up as a disagreement
+	if k, _ := strconv.Atoi(os.Getenv("VERIF_REPEAT")); k > 1 {
+		var rl []string
+		for _, l := range lines {
+			for j := 0; j < k; j++ {
+				rl = append(rl, l)
+			}
+		}
+		lines = rl
 	}
 	rep.Cases = len(lines)
 	goOuts := make([]string, len(lines))
